@@ -6,8 +6,10 @@ Property theorems only.  `sepC` is the column separator (any character but the
 newline; `'\t'` in mokapot), `sepP` the protein separator (any string; `":"` in
 mokapot).  A `PinDoc` is an abstract PIN file: header columns with a `Proteins`
 column at any position, an optional DefaultDirection line, rows with any
-number ≥ 1 of protein fields, optional whitespace padding around every line,
-with or without trailing newline.  `renderPin` is its text, `specTable` the
+number ≥ 1 of protein fields — every field may be empty or blank, also the first
+and the last one of a line —, lines optionally ending with carriage returns
+(`"\r\n"` texts from a source that does not translate newlines), with or
+without trailing newline.  `renderPin` is its text, `specTable` the
 rectangular table the conversion has to produce, `renderTsv` that table as
 text.  `d.wf sepC` is the (decidable) well-formedness predicate of
 `Model/PinTsv.lean`; what the code does outside it is listed at the end.
@@ -39,12 +41,13 @@ theorem C19_convert_rectangular_id (sepP : Str) (fs : List Str) (idx : Nat) (h :
   rw [← hn] at this
   simpa [joinWith, ← e] using this
 
-/-- the same on text: the padded PIN line of a well-formed row is converted to
-the joined rectangular line (non-protein fields unchanged, proteins joined) -/
+/-- the same on text: the PIN line of a well-formed row (fields possibly empty,
+also at either end) is converted to the joined rectangular line (non-protein
+fields unchanged, proteins joined) -/
 theorem C19_convert_line_spec (sepC : Char) (sepP : Str) (idx nCol : Nat) (r : PinRow)
-    (h : rowOk sepC idx nCol r = true) :
-    convertLine sepC sepP idx nCol (strip (r.line sepC)) = joinWith [sepC] (r.pre ++ [joinWith sepP r.prots] ++ r.post) :=
-  ((rowOk_iff sepC idx nCol r).mp h).convertLine sepP
+    (h : rowOk sepC idx nCol r = true) (hs : isEol sepC = false) :
+    convertLine sepC sepP idx nCol (chomp (r.line sepC)) = joinWith [sepC] (r.pre ++ [joinWith sepP r.prots] ++ r.post) :=
+  ((rowOk_iff sepC idx nCol r).mp h).convertLine hs sepP
 
 /-! ## whole files -/
 
@@ -65,17 +68,17 @@ theorem C19_output_table (sepC : Char) (sepP : Str) (d : PinDoc) (h : d.wf sepC 
   have hw := (wf_iff sepC d).mp h
   exact ⟨_, hw.pinToTsv sepP, parseTable_renderTable (hw.tableOk sepP hp) hw.sep⟩
 
-/-- the header line is preserved (up to the surrounding whitespace `strip`
-removes): the first output line is the stripped first input line, i.e. the
+/-- the header line is preserved (up to the line terminator `chomp`
+removes): the first output line is the first input line, i.e. the
 header columns joined by the separator -/
 theorem C19_header_preserved (sepC : Char) (sepP : Str) (d : PinDoc) (h : d.wf sepC = true) :
     ∃ out, pinToTsv sepC sepP (renderPin sepC d) = .ok out ∧
-      (pyLines out).head? = (pyLines (renderPin sepC d)).head?.map (fun l => strip l ++ ['\n']) ∧
+      (pyLines out).head? = (pyLines (renderPin sepC d)).head?.map (fun l => chomp l ++ ['\n']) ∧
       (pyLines out).head? = some (joinWith [sepC] d.cols ++ ['\n']) := by
   have hw := (wf_iff sepC d).mp h
   refine ⟨_, hw.pinToTsv sepP, ?_, hw.out_head sepP⟩
   rw [hw.out_head sepP, hw.in_head]
-  simp only [Option.map_some, strip_append_nl, hw.strip_header]
+  simp only [Option.map_some, chomp_append_nl, hw.strip_header]
 
 /-- one output line per PSM, in the original order: the output has
 `1 + #rows` lines and line `i+1` holds the fields of row `i`, proteins joined -/
@@ -97,7 +100,7 @@ and then one line per further input line in order, except a second line that
 starts with `DefaultDirection` -/
 theorem C19_line_count_any_input (sepC : Char) (sepP : Str) (ls out : List Str)
     (h : pinToTsvLines sepC sepP ls = .ok out) :
-    out.length + (if ((ls[1]?.map (fun l => isDD (strip l))).getD false) then 1 else 0) = ls.length :=
+    out.length + (if ((ls[1]?.map (fun l => isDD (chomp l))).getD false) then 1 else 0) = ls.length :=
   pinToTsvLines_length sepC sepP ls out h
 
 /-- an optional DefaultDirection line is dropped: the output is the same
@@ -117,11 +120,12 @@ theorem C19_output_valid (sepC : Char) (sepP : Str) (d : PinDoc) (h : d.wf sepC 
 
 /-- converting the output again changes nothing -/
 theorem C19_convert_idempotent (sepC : Char) (sepP : Str) (d : PinDoc) (h : d.wf sepC = true)
-    (hp : sepPOk sepC sepP = true) (hf : firstTsvRowOk sepC sepP d = true) :
+    (hp : sepPOk sepC sepP = true) (hf : firstTsvRowOk sepC sepP d = true)
+    (he : tsvEdgeOk sepP d = true) :
     ∃ out, pinToTsv sepC sepP (renderPin sepC d) = .ok out ∧ pinToTsv sepC sepP out = .ok out := by
   have hw := (wf_iff sepC d).mp h
   refine ⟨_, hw.pinToTsv sepP, ?_⟩
-  have := (hw.converted sepP hp hf).pinToTsv sepP
+  have := (hw.converted sepP hp hf he).pinToTsv sepP
   rwa [renderPin_converted, renderTsv_converted] at this
 
 /-! ## the validity test, for every text -/
@@ -194,18 +198,18 @@ theorem C19_output_rectangular (sepC : Char) (sepP : Str) (d : PinDoc) (h : d.wf
   · rfl
   · exact (hw.rows r hr).tsvFields_length sepP
 
-/-- `parse_pin_header_columns` on the (padded or already stripped) header line
+/-- `parse_pin_header_columns` on the header line (with or without its terminator)
 of a well-formed document: `n_col` is the number of header columns and
 `idx_protein_col` the position of the *first* column named `Proteins` -/
 theorem C19_header_cols_spec (sepC : Char) (d : PinDoc) (h : d.wf sepC = true) :
     ∃ n idx, parseHeaderCols sepC (d.headerLine sepC) = .ok (n, idx) ∧
-      parseHeaderCols sepC (strip (d.headerLine sepC)) = .ok (n, idx) ∧
+      parseHeaderCols sepC (chomp (d.headerLine sepC)) = .ok (n, idx) ∧
       n = d.cols.length ∧ idx < n ∧ d.cols[idx]? = some proteinsName ∧
       ∀ j, j < idx → d.cols[j]? ≠ some proteinsName := by
   have hw := (wf_iff sepC d).mp h
   have hlt : d.cols.idxOf proteinsName < d.cols.length := List.idxOf_lt_length_of_mem hw.proteins
   refine ⟨_, _, hw.parseHeaderCols, ?_, rfl, hlt, ?_, fun j hj => getElem?_ne_of_lt_idxOf _ _ j hj⟩
-  · rw [parseHeaderCols_strip sepC _ (by rw [hw.strip_header, strip_joined_line _ _ hw.edge])]
+  · rw [parseHeaderCols_strip sepC _ (by rw [hw.strip_header, hw.chomp_cols])]
     exact hw.parseHeaderCols
   · rw [List.getElem?_eq_getElem hlt, List.getElem_idxOf hlt]
 
@@ -296,25 +300,26 @@ theorem C19_verify_files_docs (t : Str) (ht : t ∈ lineTerminators) (ds : List 
 
 /-! ## Non-vacuity and evaluation tests -/
 
-/-- the example of the module docstring, with a DefaultDirection line, padding
-and the protein column in the middle -/
+/-- the example of the module docstring, with a DefaultDirection line, CRLF line
+ends, the protein column in the middle, an EMPTY FIRST field in one row and an
+EMPTY LAST field in the other (the shapes the old `strip()` destroyed) -/
 def exDoc : PinDoc :=
-  { hpadL := [], cols := ["SpecId".toList, "Label".toList, "Proteins".toList, "Peptide".toList], hpadR := [' '],
+  { hpadL := [], cols := ["SpecId".toList, "Label".toList, "Proteins".toList, "Peptide".toList], hpadR := ['\r'],
     dd := some "DefaultDirection\t-\t-".toList,
     rows := [
-      { padL := [], pre := ["t_1".toList, "1".toList], prots := ["sp|A".toList, "sp|B".toList, "sp|C".toList],
+      { padL := [], pre := ["".toList, "1".toList], prots := ["sp|A".toList, "sp|B".toList, "sp|C".toList],
         post := ["K.SEFLVR.E".toList], padR := ['\r'] },
-      { padL := [' '], pre := ["t_2".toList, "-1".toList], prots := ["sp|D".toList],
-        post := ["R.HTALGPR.S".toList], padR := [] }],
+      { padL := [], pre := [" t_2".toList, "-1".toList], prots := ["sp|D".toList, "".toList],
+        post := ["".toList], padR := [] }],
     trailingNl := false }
 
 #guard exDoc.wf '\t'
 #guard sepPOk '\t' [':']
-#guard firstTsvRowOk '\t' [':'] exDoc
+#guard firstTsvRowOk '\t' [':'] exDoc && tsvEdgeOk [':'] exDoc
 #guard String.ofList (renderPin '\t' exDoc) =
-  "SpecId\tLabel\tProteins\tPeptide \nDefaultDirection\t-\t-\nt_1\t1\tsp|A\tsp|B\tsp|C\tK.SEFLVR.E\r\n t_2\t-1\tsp|D\tR.HTALGPR.S"
+  "SpecId\tLabel\tProteins\tPeptide\r\nDefaultDirection\t-\t-\n\t1\tsp|A\tsp|B\tsp|C\tK.SEFLVR.E\r\n t_2\t-1\tsp|D\t\t"
 #guard (pinToTsv '\t' [':'] (renderPin '\t' exDoc)).toOption.map String.ofList =
-  some "SpecId\tLabel\tProteins\tPeptide\nt_1\t1\tsp|A:sp|B:sp|C\tK.SEFLVR.E\nt_2\t-1\tsp|D\tR.HTALGPR.S\n"
+  some "SpecId\tLabel\tProteins\tPeptide\n\t1\tsp|A:sp|B:sp|C\tK.SEFLVR.E\n t_2\t-1\tsp|D:\t\n"
 #guard (isValid '\t' (renderPin '\t' exDoc)).toOption = some false
 #guard (isValid '\t' (renderTsv '\t' [':'] exDoc)).toOption = some true
 #guard (verifyStep (renderPin '\t' exDoc)).toOption = some (renderTsv '\t' [':'] exDoc)
@@ -327,17 +332,17 @@ def exDoc : PinDoc :=
 
 /-- the hypotheses of the theorems are satisfiable by a non-trivial document -/
 example : ∃ d : PinDoc, d.wf '\t' = true ∧ sepPOk '\t' [':'] = true ∧ firstTsvRowOk '\t' [':'] d = true ∧
-    d.dd.isSome = true ∧ 2 ≤ d.rows.length ∧ (∃ r ∈ d.rows, 3 ≤ r.prots.length ∧ r.post ≠ []) :=
-  ⟨{ hpadL := [], cols := [['I'], proteinsName, ['P']], hpadR := [' '], dd := some ddName,
-     rows := [{ padL := [], pre := [['a']], prots := [['x'], ['y'], ['z']], post := [['p']], padR := ['\r'] },
-              { padL := [' '], pre := [['b']], prots := [['w']], post := [['q']], padR := [] }],
+    tsvEdgeOk [':'] d = true ∧ d.dd.isSome = true ∧ 2 ≤ d.rows.length ∧ (∃ r ∈ d.rows, 3 ≤ r.prots.length ∧ r.post ≠ []) :=
+  ⟨{ hpadL := [], cols := [['I'], proteinsName, ['P']], hpadR := ['\r'], dd := some ddName,
+     rows := [{ padL := [], pre := [[]], prots := [['x'], ['y'], ['z']], post := [['p']], padR := ['\r'] },
+              { padL := [], pre := [[' ', 'b']], prots := [['w']], post := [[]], padR := [] }],
      trailingNl := false }, by decide⟩
 
 /-- a document with an inner duplicate `Proteins` column, stored with `"\r\n"` line ends -/
 def exDocCrlf : PinDoc :=
-  { hpadL := [' '], cols := ["Id".toList, "Proteins".toList, "Proteins".toList], hpadR := [],
+  { hpadL := [], cols := [" Id".toList, "Proteins".toList, "Proteins".toList], hpadR := [],
     dd := none,
-    rows := [{ padL := [], pre := ["a".toList], prots := ["P".toList, "Q".toList], post := ["x".toList], padR := [' '] }],
+    rows := [{ padL := [], pre := ["a".toList], prots := ["P".toList, "Q".toList], post := ["x ".toList], padR := [] }],
     trailingNl := true }
 
 /-- an already rectangular document: the verify step leaves it alone -/
@@ -347,7 +352,7 @@ def exDocValid : PinDoc :=
     trailingNl := true }
 
 #guard exDocCrlf.wf '\t' && exDocCrlf.noCR && firstTsvRowOk '\t' [':'] exDocCrlf
-#guard exDoc.noCR == false   -- the first example has a '\r' in its padding
+#guard exDoc.noCR == false   -- the first example has a '\r' before its line ends
 #guard String.ofList (renderPinT '\t' ['\r', '\n'] exDocCrlf) = " Id\tProteins\tProteins\r\na\tP\tQ\tx \r\n"
 #guard univNl (renderPinT '\t' ['\r', '\n'] exDocCrlf) = renderPin '\t' exDocCrlf
 #guard univNl (renderPinT '\t' ['\r'] exDocCrlf) = renderPin '\t' exDocCrlf
@@ -355,7 +360,7 @@ def exDocValid : PinDoc :=
 #guard (parseHeaderCols '\t' (exDocCrlf.headerLine '\t')).toOption = some (3, 1)
 #guard (parseHeaderCols '\t' "a\tb".toList).toOption = none
 #guard (toolMain none none (renderPinT '\t' ['\r'] exDocCrlf) "old".toList).toOption.map String.ofList
-  = some "Id\tProteins\tProteins\na\tP:Q\tx\n"
+  = some " Id\tProteins\tProteins\na\tP:Q\tx \n"
 #guard (toolMain (some ',') (some ['|']) "Proteins,b\r\nP,Q,R,1\r\n".toList []).toOption.map String.ofList
   = some "Proteins,b\nP|Q|R,1\n"
 #guard (verifyFiles true [renderPinT '\t' ['\r', '\n'] exDocCrlf, renderPin '\t' exDocValid,
@@ -365,7 +370,7 @@ def exDocValid : PinDoc :=
 #guard (verifyFiles false ["Proteins\n".toList]).toOption = some ["Proteins\n".toList]
 
 /-- the hypotheses of the file theorems are satisfiable (protein column in the
-middle, two proteins, padding, a duplicate header name), every terminator is one -/
+middle, two proteins, blanks at the edges of a line, a duplicate header name), every terminator is one -/
 example : exDocCrlf.wf '\t' = true ∧ exDocCrlf.noCR = true ∧ firstTsvRowOk '\t' [':'] exDocCrlf = true ∧
     ['\r', '\n'] ∈ lineTerminators ∧ ['\r'] ∈ lineTerminators ∧ ['\n'] ∈ lineTerminators := by decide
 
